@@ -243,12 +243,38 @@ def fill_functions(db):
     """cache -> function that both looks the cache up and stores into it"""
     out = {}
     for m in stamped_caches(db):
-        getters = {op.fn.id for op in db.ops_by_map.get(m, []) if op.method == "get"}
-        setters = {op.fn.id for op in db.ops_by_map.get(m, []) if op.method == "insert"}
+        # by family: the store may sit in a closure of the function (`cached.unwrap_or_else(|| store(..))`)
+        getters = {op.fn.root for op in db.ops_by_map.get(m, []) if op.method == "get"}
+        setters = {op.fn.root for op in db.ops_by_map.get(m, []) if op.method == "insert"}
         both = sorted(getters & setters)
         if len(both) == 1:
             out[m] = both[0]
     return out
+
+
+def stored_stamps(ctx, db, m, fid, as_operands=False):
+    """the operands / locals (in terms of the fill function `fid`) of the tuple stored into cache m by fid or one of its closures"""
+    crate = ctx.bin
+    f = crate.fns[fid]
+    closures = _closures_in(crate, f)
+    for op in db.ops_by_map.get(m, []):
+        if op.method != "insert" or op.fn.root != fid or len(op.call["args"]) < 3:
+            continue
+        g = op.fn
+        vl = op_local(op.call["args"][2])
+        for d in g.whole_defs(vl) if vl is not None else []:
+            if d[0] == "assign" and d[3][0] == "agg" and d[3][1][0] == "tuple":
+                ops_ = d[3][2]
+                if g.id == fid:
+                    return ops_ if as_operands else [op_local(o) for o in ops_]
+                # stored in a closure: translate captured values to the locals of the fill function
+                out = []
+                for o in ops_:
+                    l = op_local(o)
+                    rl = _local_in_root(closures, f, g, l) if l is not None else None
+                    out.append((["cp", rl] if rl is not None else None) if as_operands else rl)
+                return out
+    return None
 
 
 def r3d_hit(ctx):
@@ -266,19 +292,14 @@ def r3d_hit(ctx):
             r.violate(key0 + "|no-fill-function", "cache `%s` has no single function that both reads and fills it" % m)
             continue
         f = ctx.bin.fns[fid]
-        ins = [op for op in db.ops_by_map[m] if op.method == "insert" and op.fn.id == fid]
         # stamps stored: aggregate tuple operand of the insert value
-        stored = None
-        for op in ins:
-            vl = op_local(op.call["args"][2]) if len(op.call["args"]) > 2 else None
-            for d in f.whole_defs(vl) if vl is not None else []:
-                if d[0] == "assign" and d[3][0] == "agg" and d[3][1][0] == "tuple":
-                    stored = [op_local(o) for o in d[3][2]]
+        stored = stored_stamps(ctx, db, m, fid)
         if stored is None or len(stored) <= k:
             r.violate(key0 + "|insert-shape", "cannot see the tuple stored into `%s` in %s" % (m, fid))
             continue
         # comparisons: Eq over (tuple field i of cached value, local)
         eqs = {}  # stamp idx -> (bb, true_target)
+        eq_locals = {}  # stamp idx -> local holding the comparison result (also when no switch follows: `(a == b).then(..)`)
         for bb, b in enumerate(f.blocks):
             for s in b["s"]:
                 if s[0] == "=" and s[2][0] == "bin" and s[2][1] == "Eq":
@@ -290,6 +311,7 @@ def r3d_hit(ctx):
                         if i is not None and i < k and stored[i] is not None and _same_local(f, y, stored[i]):
                             t = b["t"]
                             res = place_local(s[1])
+                            eq_locals[i] = res
                             if t[0] == "switch" and op_local(t[1]) == res:
                                 tt = [tg for v, tg in t[2] if v != 0] or [t[3]]
                                 # switch [0 -> false], otherwise -> true
@@ -297,6 +319,7 @@ def r3d_hit(ctx):
                                 eqs[i] = (bb, true_t)
         # payload read sites: uses of tuple field >= k of the cached value
         payload_bbs = []
+        then_guarded = []
         for bb, b in enumerate(f.blocks):
             for s in b["s"]:
                 if s[0] == "=" and s[2][0] in ("ref", "use"):
@@ -307,6 +330,31 @@ def r3d_hit(ctx):
                         if isinstance(e, list) and e[0] == "f" and e[3] == "tuple" and e[1] >= k and "Arc" in e[4]:
                             # where is it consumed? the block(s) that use the resulting local
                             payload_bbs.append((bb, place_local(s[1])))
+        # payload references whose every use is behind the tests: on the true side of the switch, or handed to the closure of
+        # `bool::then(<test>)` -- `(*h == hash).then(|| Arc::clone(v))` in the function body itself
+        if payload_bbs and all(i in eq_locals for i in range(k)):
+            domf = f.dominators()
+            kept = []
+            for bb, l in payload_bbs:
+                okl = True
+                for i in range(k):
+                    e = eq_locals[i]
+                    thens = set()
+                    for b2, c2 in f.calls():
+                        if re.search(r"bool>::then$", c2.get("res") or "") and c2["args"] and _through(f, op_local(c2["args"][0]) or -1) == _through(f, e):
+                            thens |= {x2[0] for x2 in c2.get("clos", [])}
+                    tt = eqs[i][1] if i in eqs else None
+                    if not thens and tt is None:
+                        okl = False
+                        break
+                    if not _uses_guarded(ctx.bin, f, l, tt, thens, domf):
+                        okl = False
+                        break
+                if okl:
+                    then_guarded.append(l)
+                else:
+                    kept.append((bb, l))
+            payload_bbs = kept
         use_bbs = set()
         for bb, l in payload_bbs:
             for b2, b in enumerate(f.blocks):
@@ -337,6 +385,10 @@ def r3d_hit(ctx):
                                 use_bbs.add(bb2)
         if cl_unguarded:
             r.violate(key0 + "|stamp0", "cache `%s`: closure(s) %s read the cached payload without an equality test of every stamp" % (m, sorted(cl_unguarded)))
+            continue
+        if not use_bbs and then_guarded and not cl_unguarded:
+            for i in range(k):
+                r.ok(sample={"cache": m, "stamp": i, "fill": fid, "idiom": "payload handed to bool::then(<stamp test>)"})
             continue
         if not use_bbs and not cl_guarded:
             r.violate(key0 + "|payload-use", "cannot find where the cached payload of `%s` is used in %s" % (m, fid))
@@ -814,14 +866,8 @@ def r3d_stamp_origin(ctx):
         if fid is None:
             continue
         f = ctx.bin.fns[fid]
-        ins = [op for op in db.ops_by_map[m] if op.method == "insert" and op.fn.id == fid]
-        stored = None
-        for op in ins:
-            vl = op_local(op.call["args"][2]) if len(op.call["args"]) > 2 else None
-            for d in f.whole_defs(vl) if vl is not None else []:
-                if d[0] == "assign" and d[3][0] == "agg" and d[3][1][0] == "tuple":
-                    stored = d[3][2]
-        if stored is None:
+        stored = stored_stamps(ctx, db, m, fid, as_operands=True)
+        if stored is None or any(o is None for o in stored[:k]):
             continue
         for i in range(k):
             calls = _slice_calls(ctx.bin, f, stored[i])
@@ -832,13 +878,56 @@ def r3d_stamp_origin(ctx):
             # the stamp must come from a local function whose body hashes its argument and returns finish()
             hashers = [x for x in calls if x in ctx.bin.fns and _is_content_hash(ctx.bin.fns[x])]
             others = [x for x in calls if x in ctx.bin.fns and not _is_content_hash(ctx.bin.fns[x])]
-            if hashers and not others:
+            if not calls and _stamp_param_is_hash_of_content_param(ctx, db, f, stored[i]):
+                r.ok(sample={"cache": m, "stamp": i, "hash_fn": "passed in by every caller as the hash of the content it passes"})
+            elif hashers and not others:
                 r.ok(sample={"cache": m, "stamp": i, "hash_fn": hashers[0].split("::")[-1]})
             else:
                 r.violate(key, "stamp #%d of `%s` is computed by %s, not by a hash of the whole content: different contents can share a stamp" % (
                     i, m, sorted(x.split("::")[-1] for x in (others or calls))[:3]))
     r.floor("content stamps", n, 3)
     return r
+
+
+def _stamp_param_is_hash_of_content_param(ctx, db, f, op, depth=0):
+    """the stamp is a parameter of f, and every caller passes `content_hash(<x>)` for it together with that same `<x>` as another
+    argument (the text the payload is computed from): hashing once and handing the hash down changes nothing"""
+    from .r3 import _slice_calls
+    from .r8 import _root
+    l = op_local(op)
+    pidx = None
+    if l is not None:
+        rl = _through(f, l)
+        if 1 <= rl <= f.argc:
+            pidx = rl
+    if pidx is None or depth > 2:
+        return False
+    callers = db.origins.callers.get(f.id, [])
+    if not callers:
+        return False
+    for cf, bb, c in callers:
+        if pidx - 1 >= len(c["args"]):
+            return False
+        a = c["args"][pidx - 1]
+        calls = _slice_calls(ctx.bin, cf, a)
+        hs = [x for x in calls if x in ctx.bin.fns and _is_content_hash(ctx.bin.fns[x])]
+        ot = [x for x in calls if x in ctx.bin.fns and not _is_content_hash(ctx.bin.fns[x])]
+        if not calls:
+            if not _stamp_param_is_hash_of_content_param(ctx, db, cf, a, depth + 1):
+                return False
+            continue
+        if not hs or ot:
+            return False
+        # the hashed text is one of the other arguments of this very call
+        hashed = set()
+        al = op_local(a)
+        for d in cf.whole_defs(_through(cf, al)) if al is not None else []:
+            if d[0] == "call" and d[2].get("res") in hs and d[2]["args"]:
+                hashed.add(_root(cf, d[2]["args"][-1]))
+        others_roots = {_root(cf, x) for j, x in enumerate(c["args"]) if j != pidx - 1}
+        if not (hashed & others_roots):
+            return False
+    return True
 
 
 def _is_content_hash(g):
